@@ -242,8 +242,7 @@ void run_compressed(const VPlan &pl) {
             for (size_t i = 0; i < l.keys.size(); ++i) ics.push_back((long long) l.get_intercept(i));
             lv += "{\"keys\":" + jarr(ks) + ",\"ic\":" + jarr(ics) + ",\"sl\":[]}";
         }
-        // segments_count() reads levels.back(): not callable on an index that consists of the root segment only
-        long long nsegs = Access::clevels(*idx).empty() ? 1 : (long long) idx->segments_count();
+        long long nsegs = (long long) idx->segments_count();
         o.num("height", (long long) idx->height()).num("nsegs", nsegs).raw("levels", lv + "]").raw("skeys", "[]").raw("top", "[]");
     }
     o.end();
